@@ -24,7 +24,7 @@ theorem intrusiveNodeSize_eq (ns : Nat) : intrusiveNodeSize ns = max ns 8 := by
   · simp [h]; omega
   · simp [h]; omega
 
-theorem implOff_eq : implOff = 16 := by decide
+theorem implOff_eq16 : implOff = 16 := by decide
 
 theorem chunkOff_eq : chunkOff = 32 := by decide
 theorem chunkMax_eq : chunkMax = 255 := by decide
@@ -251,7 +251,7 @@ theorem Blk.usable_size (base s : Nat) : (Blk.usable ⟨base, implOff + s⟩).si
   unfold Blk.usable; simp
 
 theorem Blk.usable_base (base s : Nat) : (Blk.usable ⟨base, s⟩).base = base + 16 := by
-  unfold Blk.usable; simp [implOff_eq]
+  unfold Blk.usable; simp [implOff_eq16]
 
 theorem implementationOffset_toNat : implementationOffset.toNat = 16 := by decide
 
